@@ -284,10 +284,20 @@ func (s *Solver) kill(b *backend, why string) {
 	}
 }
 
+// recycleAfter: check-sat commands after which a back end is replaced at the next path boundary.
+const recycleAfter = 4000
+
 // BeginPath opens the scope of one explored path.
 func (s *Solver) BeginPath() {
 	// a back end that died or lost synchronisation is replaced by a fresh process (no state is carried between paths)
 	for i, b := range s.bs {
+		if !b.dead && b.sent >= recycleAfter {
+			// incremental solvers (cvc5 in particular) grow without bound over push/pop; between paths
+			// nothing is carried over, so a fresh process is equivalent
+			b.dead = true
+			b.close()
+			s.Restarts--
+		}
 		if b.dead {
 			if nb, err := s.spawn(b.name); err == nil {
 				s.bs[i] = nb
